@@ -1,6 +1,9 @@
 package main
 
 import (
+	"bytes"
+	"testing/iotest"
+	"io"
 	"encoding/hex"
 	"fmt"
 	"strconv"
@@ -91,6 +94,21 @@ func init() {
 		}
 		if n, err := h.Write(nil); n != 0 || err != nil || h.Sum16() != s16 {
 			return "empty-write-broken"
+		}
+		// the same bytes through io.Copy / io.CopyN (which use ReadFrom when the hash has one), from a
+		// plain reader and from one that hands out its last bytes together with io.EOF
+		for k, src := range []io.Reader{bytes.NewReader(data), iotest.DataErrReader(bytes.NewReader(data)), iotest.OneByteReader(bytes.NewReader(data))} {
+			hc := dyncrc16.New()
+			var n int64
+			var err error
+			if k == 1 {
+				n, err = io.CopyN(hc, src, int64(len(data)))
+			} else {
+				n, err = io.Copy(hc, src)
+			}
+			if err != nil || n != int64(len(data)) || hc.Sum16() != dyncrc16.Checksum(data) {
+				return fmt.Sprintf("copy-feed-broken reader=%d n=%d err=%v sum=%04x", k, n, err, hc.Sum16())
+			}
 		}
 		h.Reset()
 		return fmt.Sprintf("%d %s %d %d", s16, hex.EncodeToString(sum), h.Sum16(), dyncrc16.Checksum(data))
